@@ -13,9 +13,11 @@ import numpy as np
 from absn import *
 import common as C
 
-ITEM = {'F': (), 'I': (), 'B': (), 'P': (2,), 'V': (3,)}
-CLS = {'F': Scalar, 'I': Scalar, 'B': Boolean, 'P': Pair, 'V': Vector3}
-DTYPE = {'F': 'float64', 'I': 'int64', 'B': 'bool', 'P': 'int64', 'V': 'float64'}
+from polymath import Polynomial
+ITEM = {'F': (), 'I': (), 'B': (), 'P': (2,), 'V': (3,), 'M2': (2, 2), 'M3': (3, 3), 'Y': (4,)}
+CLS = {'F': Scalar, 'I': Scalar, 'B': Boolean, 'P': Pair, 'V': Vector3, 'M2': Matrix, 'M3': Matrix, 'Y': Polynomial}
+DTYPE = {'F': 'float64', 'I': 'int64', 'B': 'bool', 'P': 'int64', 'V': 'float64', 'M2': 'float64', 'M3': 'float64',
+         'Y': 'float64'}
 UNITS = {None: None, 'km': Units.KM, 's': Units.SECONDS, 'rad': Units.RAD, 'km2': Units.KM ** 2}
 
 
@@ -152,6 +154,11 @@ UNARYP = {
     'any': lambda x, ax: x.any(axis=_ax(ax)), 'all': lambda x, ax: x.all(axis=_ax(ax)),
     'tvl_any': lambda x, ax: x.tvl_any(axis=_ax(ax)), 'tvl_all': lambda x, ax: x.tvl_all(axis=_ax(ax)),
     'rms': lambda x: x.rms(),
+    'inverse': lambda x: x.inverse(), 'inverse_nz': lambda x: x.inverse(nozeros=True),
+    'mrecip': lambda x: x.reciprocal(), 'mrecip_nz': lambda x: x.reciprocal(nozeros=True),
+    'transpose': lambda x: x.transpose(), 'unitary': lambda x: x.unitary(), 'is_diagonal': lambda x: x.is_diagonal(),
+    'row_vector': lambda x, k: x.row_vector(k), 'm_to_scalar': lambda x, i, j: x.to_scalar(i, j),
+    'roots': lambda x: x.roots(), 'poly_eval': lambda x, c: x.eval(c), 'poly_deriv': lambda x: x.deriv(),
     # the same public methods with their option values
     'sign_o': lambda x, zeros, builtins: x.sign(zeros=zeros, builtins=builtins),
     'int_o': lambda x, top, remask, clip, inclusive: x.int(top=top, remask=remask, clip=clip, inclusive=inclusive),
